@@ -63,6 +63,7 @@ class Outer:
     count: Optional[int] = None
     pt: Point = field(default_factory=Point)
     ratio: float = 0.5
+    limit: Optional[float] = 30.0  # optional with a non-null default: an explicit null is a setting of its own
 
 
 @dataclass
